@@ -128,7 +128,7 @@ Proof.
     destruct v1; try discriminate;
       try (destruct (py_own_attr f); [discriminate|]);
       try (injection H as <- _; exact E);
-      try (destruct (String.eqb f "id"); [injection H as <- _; exact E|discriminate]).
+      try (dbind H as w0; injection H as <- _; exact E).
     + destruct (nth_error (heap s1) h); [|discriminate].
       destruct (row_attr c f); injection H as <- _; exact E.
     + destruct (String.eqb f "id"); [|discriminate]. dbind H as [s2 i].
@@ -175,7 +175,7 @@ Proof.
       destruct (row_attr c p); [|discriminate]. injection E as <- _. apply jq_refl.
     + destruct (String.eqb p "id"); [|discriminate]. dbind E as [s2 i].
       injection E as <- _. apply touch_slot_jq in E0. exact E0.
-    + destruct (String.eqb p "id"); [|discriminate]. injection E as <- _. apply jq_refl.
+    + dbind E as w0. injection E as <- _. apply jq_refl.
 Qed.
 
 Lemma reference_jq e path s s' v : reference e path s = Ok (s', v) -> jq s s'.
@@ -266,6 +266,25 @@ Proof.
   discriminate.
 Qed.
 
+Lemma find_cell_In t i l c : find_cell t i l = Some c -> In c l.
+Proof.
+  induction l as [|c0 l IH]; cbn [find_cell]; [discriminate|].
+  destruct (_ && _); [intros H; injection H as <-; left; reflexivity|intros H; right; auto].
+Qed.
+
+(* a field read through a random_reference comes out of a heap cell, so it is as good as the heap *)
+Lemma hist_attr_ok s t i f w : V s -> hist_attr (hist (rnd s)) (heap s) t i f = Ok w -> val_ok s w.
+Proof.
+  intros (Va & _) H. unfold hist_attr in H.
+  destruct (String.eqb f "id"); [injection H as <-; exact I|].
+  destruct (_ || _); [discriminate|]. destruct (negb _); [discriminate|].
+  destruct (find_cell t i (heap s)) as [c|] eqn:Hc; [|discriminate].
+  destruct (lookup f (c_fields c)) as [w0|] eqn:Hw; [|discriminate].
+  destruct (lookup_In _ _ _ Hw) as (k' & Hin).
+  assert (Hok : val_ok s w0) by (eapply (Va c); [eapply find_cell_In; exact Hc|exact Hin]).
+  destruct w0; try discriminate; injection H as <-; exact Hok.
+Qed.
+
 Lemma eval_expr_V e x : forall s s' v, eval_expr e x s = Ok (s', v) -> V s -> V s' /\ val_ok s' v.
 Proof.
   assert (HV : forall s s' v, eval_expr e x s = Ok (s', v) -> V s -> V s').
@@ -280,7 +299,7 @@ Proof.
     destruct v1; try discriminate;
       try (destruct (py_own_attr f); [discriminate|]);
       try (injection H as _ <-; exact I);
-      try (destruct (String.eqb f "id"); [injection H as _ <-; exact I|discriminate]).
+      try (dbind H as w0; injection H as <- <-; eapply hist_attr_ok; [exact V1'|exact E0]).
     + destruct (nth_error (heap s1) h) as [c|] eqn:Hc; [|discriminate].
       destruct (row_attr c f) as [w|] eqn:Hw; injection H as <- <-; [|exact I].
       unfold row_attr in Hw. destruct (String.eqb f "id"); [injection Hw as <-; exact I|].
@@ -342,7 +361,7 @@ Proof.
       injection H as <- _. apply mono_refl.
     - destruct (String.eqb p "id"); [|discriminate]. dbind H as [s2 i]. injection H as <- _.
       apply (touch_slot_jq _ _ _ _ E).
-    - destruct (String.eqb p "id"); [|discriminate]. injection H as <- _. apply mono_refl. }
+    - dbind H as w0. injection H as <- _. apply mono_refl. }
   split; [eapply V_so; [eapply getattr_path_so; exact H|exact M|exact HVs]|].
   unfold getattr_path in H. destruct v; try discriminate.
   - destruct (nth_error (heap s) h) as [c|] eqn:Hc; [|discriminate].
@@ -351,7 +370,7 @@ Proof.
     destruct (lookup_In _ _ _ Hw) as (k' & Hin). destruct HVs as (Va & _).
     eapply (Va c); [eapply nth_error_In; exact Hc|exact Hin].
   - destruct (String.eqb p "id"); [|discriminate]. dbind H as [s2 i]. injection H as _ <-. exact I.
-  - destruct (String.eqb p "id"); [|discriminate]. injection H as _ <-. exact I.
+  - dbind H as w0. injection H as <- <-. eapply hist_attr_ok; [exact HVs|exact E].
 Qed.
 
 Lemma follow_path_V parts : forall s v s' w,
